@@ -125,6 +125,10 @@ func findFirstBetween(value, sub, start, finish any) (any, error) {
 		}
 	}
 
+	if len(s) == 0 || len(p) == 0 {
+		return nil, nil
+	}
+
 	if i < 0 {
 		i = 0
 	} else if i > len(s) {
@@ -211,6 +215,10 @@ func findFirstFrom(value, sub, start any) (any, error) {
 		return nil, &integerConversionError{
 			num: d,
 		}
+	}
+
+	if len(s) == 0 || len(p) == 0 {
+		return nil, nil
 	}
 
 	if i < 0 {
@@ -338,6 +346,10 @@ func findLastBetween(value, sub, start, finish any) (any, error) {
 		}
 	}
 
+	if len(s) == 0 || len(p) == 0 {
+		return nil, nil
+	}
+
 	if i < 0 {
 		i = 0
 	} else if i > len(s) {
@@ -424,6 +436,10 @@ func findLastFrom(value, sub, start any) (any, error) {
 		return nil, &integerConversionError{
 			num: d,
 		}
+	}
+
+	if len(s) == 0 || len(p) == 0 {
+		return nil, nil
 	}
 
 	if i < 0 {
